@@ -420,7 +420,7 @@ func genBuf(r *rng.R) (int64, []BufOp) {
 			case 4:
 				i = next
 			case 5:
-				i = next + 1
+				i = next + 1 + int64(r.Intn(300)) // ahead of the serving log: a follower of a leader that restarted behind
 			case 6:
 				i = first + int64(r.Intn(int(win)+1))
 			default:
@@ -559,12 +559,30 @@ func (r *recStream) Send(resp *pdpb.SyncRegionResponse) error {
 
 type pdStub struct {
 	pdpb.PDServer
-	leader *syncer.RegionSyncer
-	mu     sync.Mutex
-	msgs   []Msg
+	leader   *syncer.RegionSyncer
+	mu       sync.Mutex
+	msgs     []Msg
+	panicked string // the leader's handler panicked while serving a request (it would have killed the PD server)
 }
 
-func (p *pdStub) SyncRegions(stream pdpb.PD_SyncRegionsServer) error {
+func (p *pdStub) guard() {
+	if r := recover(); r != nil {
+		p.mu.Lock()
+		if p.panicked == "" {
+			p.panicked = fmt.Sprint(r)
+		}
+		p.mu.Unlock()
+	}
+}
+
+func (p *pdStub) didPanic() string {
+	p.mu.Lock()
+	defer p.mu.Unlock()
+	return p.panicked
+}
+
+func (p *pdStub) SyncRegions(stream pdpb.PD_SyncRegionsServer) (err error) {
+	defer p.guard()
 	return p.leader.Sync(&recStream{PD_SyncRegionsServer: stream, mu: &p.mu, msgs: &p.msgs})
 }
 
@@ -628,6 +646,7 @@ type cutStub struct {
 }
 
 func (p *cutStub) SyncRegions(stream pdpb.PD_SyncRegionsServer) error {
+	defer p.guard()
 	return p.leader.Sync(p.mk(stream))
 }
 
@@ -855,6 +874,109 @@ func bigWindowProbe(R *res.Result) {
 	}()
 }
 
+// reconnectProbe: a long-lived follower loop (start index > 0) receives broadcasts, the stream breaks WITHOUT a leader change,
+// the leader records almost a whole history window of changes meanwhile, the endpoint comes back: the follower must ask for
+// the index it has reached by then (still inside the leader's window) and receive everything it missed.
+func reconnectProbe(R *res.Result, seed uint64) {
+	H := syncer.VerifDefaultHistoryBufferSize
+	const I0, early = 500, 600
+	late := H - 300
+	if late > 30000 {
+		late = 30000
+	}
+	r := rng.New(seed ^ 0x9e3779)
+	leader := newNode("leader", u64p(I0), true)
+	follower := newNode("follower", u64p(I0), true)
+	base := genRegions(r, 40, 1, 0)
+	for _, reg := range base {
+		leader.srv.bc.PutRegion(reg.info())
+	}
+	upd := genUpdates(r, base, early+late)
+	for i := range upd {
+		if upd[i].Leader == nil {
+			p := upd[i].Peers[0]
+			upd[i].Leader = &p
+		}
+	}
+	newest := map[uint64]Region{}
+	for _, u := range upd {
+		newest[u.ID] = u
+	}
+	wait := func(d time.Duration, cond func() bool) bool {
+		deadline := time.Now().Add(d)
+		for time.Now().Before(deadline) {
+			if cond() {
+				return true
+			}
+			time.Sleep(time.Millisecond)
+		}
+		return false
+	}
+	lis, err := net.Listen("tcp", "127.0.0.1:0")
+	if err != nil {
+		panic(err)
+	}
+	addr := lis.Addr().String()
+	stub := &pdStub{leader: leader.syncer}
+	gs := grpc.NewServer()
+	pdpb.RegisterPDServer(gs, stub)
+	go gs.Serve(lis)
+	follower.syncer.StartSyncWithLeader("http://" + addr)
+	fidx := func() uint64 { return follower.syncer.VerifHistory().GetNextIndex() }
+	ok := wait(8*time.Second, func() bool { return leader.syncer.VerifStreamBound("follower") })
+	ch := make(chan *core.RegionInfo, early+late+10)
+	quit := make(chan struct{})
+	go leader.syncer.RunServer(ch, quit)
+	for _, u := range upd[:early] {
+		ch <- u.info()
+	}
+	ok = ok && wait(8*time.Second, func() bool { return fidx() == I0+early })
+	// the stream breaks, the leader stays the leader and keeps recording
+	gs.Stop()
+	for _, u := range upd[early:] {
+		ch <- u.info()
+	}
+	ok = ok && wait(8*time.Second, func() bool { return leader.syncer.VerifHistory().GetNextIndex() == uint64(I0+early+late) })
+	gs2 := grpc.NewServer()
+	pdpb.RegisterPDServer(gs2, stub)
+	var lis2 net.Listener
+	wait(5*time.Second, func() bool { lis2, err = net.Listen("tcp", addr); return err == nil })
+	if lis2 != nil {
+		go gs2.Serve(lis2)
+	}
+	caught := wait(10*time.Second, func() bool { return fidx() == uint64(I0+early+late) })
+	close(quit)
+	R.Count("probe:reconnect")
+	if ok {
+		bad := ""
+		for _, ri := range follower.srv.bc.GetRegions() {
+			f := regionOf(ri)
+			if n, has := newest[f.ID]; has && (!eqMeta(n, f) || !eqPeerPtr(n.Leader, f.Leader) || n.BW != f.BW || n.KW != f.KW) {
+				bad = fmt.Sprintf("region %d: the leader holds conf_ver %d leader %s, the follower conf_ver %d leader %s", f.ID, n.ConfVer, showPeer(n.Leader), f.ConfVer, showPeer(f.Leader))
+				break
+			}
+		}
+		if !caught || bad != "" {
+			R.Violate("C16:reconnect:changes-during-break-never-arrive",
+				fmt.Sprintf("follower loop started at index %d, received %d broadcasts, the stream broke (same leader), the leader recorded %d more changes (window %d) and came back: the follower's next index is %d instead of %d; %s",
+					I0, early, late, H, fidx(), I0+early+late, bad),
+				map[string]interface{}{"probe": "reconnect", "start": I0, "before_break": early, "during_break": late})
+		}
+	}
+	cleanup.Add(1)
+	go func() {
+		defer cleanup.Done()
+		follower.syncer.StopSyncWithLeader()
+		gs.Stop()
+		gs2.Stop()
+		for _, nd := range []*node{leader, follower} {
+			nd.cancel()
+			nd.rs.Close()
+			os.RemoveAll(nd.dir)
+		}
+	}()
+}
+
 func genCut(r *rng.R, k int) Case {
 	sizes := []int{101, 150, 230, 250}
 	n := sizes[k%len(sizes)]
@@ -932,6 +1054,9 @@ func runSync(R *res.Result, c Case) Case {
 		for time.Now().Before(deadline) {
 			if cond() {
 				return true
+			}
+			if stub.didPanic() != "" {
+				return false
 			}
 			time.Sleep(200 * time.Microsecond)
 		}
@@ -1033,6 +1158,18 @@ func runSync(R *res.Result, c Case) Case {
 			os.RemoveAll(n.dir)
 		}
 	}()
+	if msg := stub.didPanic(); msg != "" {
+		fp := "none"
+		if c.FP != nil {
+			fp = fmt.Sprint(*c.FP)
+		}
+		lp := "none"
+		if c.LP != nil {
+			lp = fmt.Sprint(*c.LP)
+		}
+		R.Violate("C16:sync:leader-panicked", fmt.Sprintf("the leader's sync handler panicked (%s) serving a follower that asked for index %s; the leader's persisted index is %s and it has recorded %d changes since its start",
+			msg, fp, lp, len(c.LRecs)), slim(c))
+	}
 	// ---- the property on the implementation's own trace, checked here as well (Coq's monitor V does the same) ----
 	checkSent(R, &c)
 	return c
@@ -1487,6 +1624,18 @@ func main() {
 			cases := make([]Case, *ncut)
 			var wg sync.WaitGroup
 			var rmu sync.Mutex
+			wg.Add(1)
+			go func() { // needs the client's 1 s reconnect back-off as well: side by side with the cut cases
+				defer wg.Done()
+				Rk := res.New("C16", *seed, *tier)
+				reconnectProbe(Rk, *seed)
+				rmu.Lock()
+				for _, v := range Rk.Violations {
+					R.Violate(v.Sig, v.Desc, v.Replay)
+				}
+				R.Count("probe:reconnect")
+				rmu.Unlock()
+			}()
 			for k := 0; k < *ncut; k++ {
 				wg.Add(1)
 				go func(k int) {
